@@ -282,8 +282,34 @@ func validate(x float64, bin bool, s string) (r result) {
 		upper = rat1024
 	}
 	m := p.mant
+	// atLeast reports whether |v| has reached the boundary t×factor: either
+	// the exact rational boundary or the float64 nearest to it, whichever is
+	// lower (the property's own example treats the float written 999.95 as
+	// being at the boundary: it prints as 1.000k). No other tolerance.
+	atLeast := func(t string) bool {
+		lim := ratMul(ratDec(t), pf.factor)
+		if fl := new(big.Rat).SetFloat64(ratFloat(lim)); fl != nil && fl.Cmp(lim) < 0 {
+			lim = fl
+		}
+		return a.Cmp(lim) >= 0
+	}
 	switch {
 	case m.Cmp(rat1) >= 0:
+		// Four significant digits of the value, not merely four printed
+		// digits: a coarser form is acceptable only from the point where the
+		// finer one would round up out of its range (9.9995 → 10.00,
+		// 99.995 → 100.0, 0.99995 → 1.000 of the next prefix).
+		if !smallest && !atLeast("0.99995") {
+			r.err = fmt.Sprintf("prefix %q chosen although the mantissa in it is below 0.99995 (the smaller prefix gives more digits)", p.prefix)
+			return
+		}
+		if m.Cmp(rat1000) < 0 && p.decimals < 3 {
+			t := map[int]string{2: "9.9995", 1: "99.995", 0: "999.95"}[p.decimals]
+			if !atLeast(t) {
+				r.err = fmt.Sprintf("only %d decimals although the mantissa is below %s (one more digit fits in four significant digits)", p.decimals, t)
+				return
+			}
+		}
 		if m.Cmp(upper) >= 0 && !largest {
 			r.err = fmt.Sprintf("mantissa %s%s.%s is not below %s although a larger prefix exists", "", p.ip, p.fp, upper.FloatString(0))
 			return
@@ -432,6 +458,17 @@ func checkCommon(c Case, v *vcase.Verdict) {
 	claim3 := ratAbsFloat(minv).Cmp(ratMul(ratPow(10, -8), pfs[len(pfs)-1].factor)) >= 0
 	for _, x := range xs {
 		s := sc.Format(x)
+		if overflowSignature(x, s, pf) {
+			// Scaler.Format divides by a factor < 1 in float64: the quotient of a
+			// huge value overflows and "±Inf<prefix>" is printed. The generator
+			// keeps multisets inside |v| ≤ 1e299 unless the finding is listed.
+			if vcase.KnownListed(findingOverflow) {
+				v.KnownHit(findingOverflow)
+				continue
+			}
+			v.Failf("shared scale: Format(%v) = %q: val/factor overflows float64 (finding %s, not listed)", x, s, findingOverflow)
+			return
+		}
 		p, ok := parsePrinted(s)
 		if !ok {
 			v.Failf("shared scale: Format(%v) = %q is malformed", x, s)
@@ -470,6 +507,29 @@ func checkCommon(c Case, v *vcase.Verdict) {
 		}
 	}
 	v.Label("minform=" + rm.form)
+}
+
+// findingOverflow: CommonScale picks a sub-unit prefix (m, µ, n) from a small
+// value; Format of a value above MaxFloat64×factor then prints ±Inf.
+const findingOverflow = "C10-a"
+
+// commonMax bounds the magnitudes in generated multisets so that val/factor
+// cannot overflow for any supported factor (smallest: 1e-9).
+const commonMax = 1e299
+
+// overflowSignature: the output is exactly ±Inf followed by the prefix, and
+// the exact quotient |x|/factor is (within 2^-50 relative) beyond MaxFloat64.
+func overflowSignature(x float64, s string, pf prefix) bool {
+	want := "+Inf"
+	if x < 0 {
+		want = "-Inf"
+	}
+	if s != want+pf.sym {
+		return false
+	}
+	q := new(big.Rat).Quo(ratAbsFloat(x), pf.factor)
+	lim := ratMul(ratAbsFloat(math.MaxFloat64), new(big.Rat).Sub(ratInt(1), ratPow(2, -50)))
+	return q.Cmp(lim) >= 0
 }
 
 var bytesToks = map[string]bool{"B": true, "MB": true, "bytes": true}
@@ -810,6 +870,11 @@ func GenCommon(t *rapid.T) Case {
 	for i, f := range vals {
 		if math.IsInf(f, 0) || math.IsNaN(f) {
 			f = math.MaxFloat64
+		}
+		if !vcase.KnownListed(findingOverflow) {
+			for math.Abs(f) > commonMax {
+				f /= 1e20
+			}
 		}
 		bits[i] = hexBits(f)
 	}
